@@ -13,6 +13,7 @@ import Emboss.Lemmas.TokTable
 import Emboss.Lemmas.TokBoundary
 import Emboss.Lemmas.TokLongest
 import Emboss.Lemmas.TokSplit
+import Emboss.Lemmas.TokLineSpec
 import Emboss.Generated.TokTable
 namespace Emboss.Tok
 open Emboss.Regex Emboss.Generated
@@ -257,6 +258,65 @@ theorem C10_longest_match_documented (ln : Nat) (line : List Char) (segs : List 
     · have := hpre q hq n hn; omega
     · rw [hm] at hn; cases hn; exact hle
     · have := hpost q hq n hn; omega
+
+/-! ## `_tokenize_line` *equals* the declarative maximal-munch specification -/
+
+/-- **Any pattern list.**  The model of `_tokenize_line` and the declarative specification
+(`Covers` = the line cut into consecutive non-empty best matches; `StuckAt k` = such a cut
+reaches offset `k` where a non-empty rest has no non-empty match) determine each other:
+it answers `ok ts` iff `ts` are the tokens of a cover, "Unrecognized token" at `k` iff the
+cut is stuck at `k`; covers are unique; and every line has a cover or a stuck position
+(never "out of fuel").  `C10_lossless` is the `→` direction of the first part, lifted to files. -/
+theorem C10_tokenize_line_eq_spec (pats : List Pat) (ln : Nat) (line : List Char) :
+    (∀ ts, tokLine pats ln line.length line 0 = .ok ts ↔
+      ∃ segs, Covers pats ln line 0 segs ∧ ts = tokensOf segs) ∧
+    (∀ k, tokLine pats ln line.length line 0 = .err k ↔ StuckAt pats line 0 k) ∧
+    (∀ segs₁ segs₂, Covers pats ln line 0 segs₁ → Covers pats ln line 0 segs₂ → segs₁ = segs₂) ∧
+    ((∃ segs, Covers pats ln line 0 segs) ∨ (∃ k, StuckAt pats line 0 k)) := by
+  refine ⟨?_, ?_, fun _ _ h₁ h₂ => h₁.unique h₂, ?_⟩
+  · intro ts
+    constructor
+    · exact tokLine_covers pats ln _ _ _ ts
+    · rintro ⟨segs, hc, rfl⟩
+      exact hc.tokLine_eq _ (Nat.le_refl _)
+  · intro k
+    exact ⟨tokLine_err_stuck pats ln _ _ _ k, fun h => h.tokLine_eq ln _ (Nat.le_refl _)⟩
+  · cases h : tokLine pats ln line.length line 0 with
+    | fuel => exact absurd h (tokLine_no_fuel pats ln _ _ _ (Nat.le_refl _))
+    | err k => exact .inr ⟨k, tokLine_err_stuck pats ln _ _ _ k h⟩
+    | ok ts =>
+      obtain ⟨segs, hc, _⟩ := tokLine_covers pats ln _ _ _ ts h
+      exact .inl ⟨segs, hc⟩
+
+/-- **The regenerated table.**  The same with the specification phrased through the
+documented patterns' *languages* only (no matcher, no backtracking order): `MunchCovers` /
+`MunchStuck` use `IsBestLang` — the greatest length any pattern's language matches at that
+position, the earliest pattern among those reaching it. -/
+theorem C10_tokenize_line_eq_documented_spec (ln : Nat) (line : List Char) :
+    (∀ ts, tokLine tokTable.pats ln line.length line 0 = .ok ts ↔
+      ∃ segs, MunchCovers tokTable.pats ln line 0 segs ∧ ts = tokensOf segs) ∧
+    (∀ k, tokLine tokTable.pats ln line.length line 0 = .err k ↔ MunchStuck tokTable.pats line 0 k) := by
+  obtain ⟨h1, h2, _, _⟩ := C10_tokenize_line_eq_spec tokTable.pats ln line
+  constructor
+  · intro ts
+    rw [h1 ts]
+    constructor
+    · rintro ⟨segs, hc, e⟩; exact ⟨segs, (covers_iff_munch priority_is_longest_all _ _ _ _).mp hc, e⟩
+    · rintro ⟨segs, hc, e⟩; exact ⟨segs, (covers_iff_munch priority_is_longest_all _ _ _ _).mpr hc, e⟩
+  · intro k
+    rw [h2 k]
+    exact stuck_iff_munch priority_is_longest_all _ _ _
+
+/-- Non-vacuity (tests by evaluation): a line with a cover, a line that gets stuck. -/
+example : (∃ segs, MunchCovers tokTable.pats 1 "a  0x_1".toList 0 segs ∧
+      tokensOf segs = [⟨"SnakeWord", ['a'], 1, 1, 1, 2⟩, ⟨"Number", "0x_1".toList, 1, 4, 1, 8⟩]) ∧
+    MunchStuck tokTable.pats "a ~".toList 0 2 := by
+  constructor
+  · obtain ⟨segs, h, e⟩ := ((C10_tokenize_line_eq_documented_spec 1 "a  0x_1".toList).1 _).mp
+      (by decide +kernel : tokLine tokTable.pats 1 _ "a  0x_1".toList 0 = .ok
+        [⟨"SnakeWord", ['a'], 1, 1, 1, 2⟩, ⟨"Number", "0x_1".toList, 1, 4, 1, 8⟩])
+    exact ⟨segs, h, e.symm⟩
+  · exact ((C10_tokenize_line_eq_documented_spec 1 "a ~".toList).2 2).mp (by decide +kernel)
 
 /-! ## Classification of names and numbers (table-specific)
 
